@@ -1693,7 +1693,7 @@ def m_read_exact(c):
 def m_write_all(c):
     out = []
     sim = c.I.opts.get("io_sim") and c.path.endswith("write_all")
-    for good in (True, False):
+    for good in ((True,) if (sim and c.I.opts.get("io_ok_only")) else (True, False)):
         s2 = c.st.fork() if good else c.st
         c.I.havoc_through(s2, c.args[0])
         if good and sim:
